@@ -9,7 +9,7 @@ def run(tier, v, wd, replay=None):
         cfgs = [("RuleScan_single.cfg", {}), ("RuleScan_c2.cfg", {}), ("RuleScan_r2.cfg", {})]
     else:
         cfgs = [("RuleScan_single.cfg", {}), ("RuleScan_c2.cfg", {}), ("RuleScan_r2.cfg", {}),
-                ("RuleScan_sim.cfg", dict(simulate={"num": 3000}, depth=14, workers=8))]
+                ("RuleScan_sim.cfg", dict(simulate={"num": 3000}, depth=14, workers=8, max_emit=200000))]
     vec = generate(tier, v, wd, cfgs)
     repo = vlib.scratch_repo(wd, "stub")
     run_vectors(v, wd, repo, "./control/", "TestVerifRuleScanUser", vec, env={"VERIF_RS_MODE": "c04"},
@@ -18,5 +18,5 @@ def run(tier, v, wd, replay=None):
     v.coverage["explanation"] = ("TLC proves Decide(Optimize(prog)) = Decide(prog) for every generated program (alias, sort-&&, merge-neighbours, "
                                  "dedup as transcribed from optimizer.go); every program is compiled through the production optimiser pipeline "
                                  "(Alias, DatReader, MergeAndSort, DeduplicateParams) and ControlPlane.Route compared with the meaning of the rules as written")
-    v.assumptions += ["geodata expansion (DatReaderOptimizer) is run but no rule uses geoip:/geosite:/ext: keys (no .dat files offline)",
+    v.assumptions += ["geodata expansion (DatReaderOptimizer) runs on geosite: values from a generated geosite.dat; geoip:/ext: files are not exercised",
                       "DNS request/response pipelines are covered under C07"]
